@@ -5,6 +5,8 @@ import (
 	"bytes"
 	"crypto"
 	"crypto/sha1"
+	"crypto/tls"
+	"crypto/x509"
 	"encoding/json"
 	"fmt"
 	"io"
@@ -48,6 +50,10 @@ func TestMain(m *testing.M) {
 	// a key the test client is not entitled to
 	env.Cfg.Keys["foreign"] = &config.KeyConfig{Token: "file", KeyFile: env.Cfg.Keys["rsa2048a"].KeyFile, X509Certificate: env.Cfg.Keys["rsa2048a"].X509Certificate, Roles: []string{"otherrole"}}
 	env.Cfg.Keys["aliaskey"] = &config.KeyConfig{Alias: "p256a"}
+	// a client entry matched by its issuing CA and without a nickname: each member is
+	// recorded under its own short fingerprint
+	clientCA = keys.NewCA("c06 client CA", keys.Key("p521b"), nil, keys.Epoch, keys.Far)
+	env.Cfg.Clients["00ca-members"] = &config.ClientConfig{Certificate: string(keys.CertPEM(clientCA.Cert)), Roles: []string{"signer"}}
 	if err := env.Install(env.Cfg); err != nil {
 		panic(err)
 	}
@@ -55,6 +61,13 @@ func TestMain(m *testing.M) {
 		panic(err)
 	}
 	client = env.HTTPClient()
+	clients = []*identity{{name: "verifclient", http: client}}
+	for _, who := range []struct{ cn, key string }{{"alice", "rsa2048b"}, {"bob", "p256b"}} {
+		leaf := clientCA.Issue(keys.Key(who.key).Public(), keys.LeafOpts{CN: "c06 " + who.cn, EKU: []x509.ExtKeyUsage{x509.ExtKeyUsageClientAuth}})
+		tc := tls.Certificate{Certificate: [][]byte{leaf.Raw}, PrivateKey: keys.Key(who.key)}
+		hc := &http.Client{Transport: &http.Transport{TLSClientConfig: &tls.Config{InsecureSkipVerify: true, Certificates: []tls.Certificate{tc}}}}
+		clients = append(clients, &identity{name: keys.SPKIFingerprint(leaf)[:12], http: hc})
+	}
 	code := m.Run()
 	env.StopServer()
 	rec.Flush()
@@ -62,8 +75,19 @@ func TestMain(m *testing.M) {
 	os.Exit(code)
 }
 
+type identity struct {
+	name string // what the audit record must call this client
+	http *http.Client
+}
+
+var (
+	clientCA *keys.CA
+	clients  []*identity
+)
+
 type reqSpec struct {
-	Kind     string `json:"kind"` // ok | unknown-key | foreign-key | bad-type | bad-digest | bad-body | alias
+	Client   int    `json:"client"` // index into clients: configured by fingerprint, or member of the client CA
+	Kind     string `json:"kind"`   // ok | unknown-key | foreign-key | bad-type | bad-digest | bad-body | alias
 	Key      string `json:"key"`
 	Digest   string `json:"digest"`
 	Filename string `json:"filename"`
@@ -167,7 +191,7 @@ func doSign(spec reqSpec, auditPath string) result {
 		body = "this is not a PE image"
 	}
 	req, _ := http.NewRequest("POST", env.BaseURL()+"/sign?"+v.Encode(), strings.NewReader(body))
-	resp, err := client.Do(req)
+	resp, err := clients[spec.Client%len(clients)].http.Do(req)
 	if err != nil {
 		return result{spec: spec, err: err}
 	}
@@ -194,7 +218,7 @@ func TestC06_ServerHistories(t *testing.T) {
 		var specs []reqSpec
 		for i := 0; i < n; i++ {
 			kind := rapid.SampledFrom([]string{"ok", "ok", "ok", "ok", "alias", "unknown-key", "foreign-key", "bad-type", "bad-digest", "bad-body"}).Draw(t, "kind")
-			s := reqSpec{Kind: kind, Key: rapid.SampledFrom(pipe.SigningKeys).Draw(t, "key"), Filename: fmt.Sprintf("c%d-r%d.ps1", counter, i)}
+			s := reqSpec{Kind: kind, Key: rapid.SampledFrom(pipe.SigningKeys).Draw(t, "key"), Filename: fmt.Sprintf("c%d-r%d.ps1", counter, i), Client: rapid.IntRange(0, len(clients)-1).Draw(t, "client")}
 			switch kind {
 			case "unknown-key":
 				s.Key = "nosuchkey"
@@ -265,7 +289,7 @@ func TestC06_ServerHistories(t *testing.T) {
 				}
 				wantHash := map[string]string{"": "SHA-256", "sha1": "SHA1", "sha256": "SHA-256", "sha512": "SHA-512"}[r.spec.Digest]
 				fp := fmt.Sprintf("%x", sha1.Sum(env.Leaf[wantKey].Raw))
-				checks := map[string]any{"sig.keyname": wantKey, "sig.type": "ps", "sig.hash": wantHash, "sig.x509.fingerprint": fp, "client.name": "verifclient", "client.ip": "127.0.0.1", "client.filename": r.spec.Filename}
+				checks := map[string]any{"sig.keyname": wantKey, "sig.type": "ps", "sig.hash": wantHash, "sig.x509.fingerprint": fp, "client.name": clients[r.spec.Client%len(clients)].name, "client.ip": "127.0.0.1", "client.filename": r.spec.Filename}
 				for k, want := range checks {
 					if a[k] != want {
 						failf("audit record of %s has %s=%v, want %v (record %v)", r.spec.Filename, k, a[k], want, a)
